@@ -132,10 +132,9 @@ fn state_of(o: &Obs, tw: &Twin) -> u8 {
     }
 }
 
-/// the one known finding that shows at this level (KNOWN_FINDINGS.txt, property C07): a context created over a data
-/// directory WITHOUT symbols.dat has an empty symbol table; the symbol list (grave, Ctrl-0/1, Down on a character
-/// without special symbols) is opened nevertheless and lists nothing
-const KNOWN_EMPTY_SYMBOL_LIST: &str = "FX1-empty-symbol-table-list";
+// (finding FX1 - a context created over a data directory WITHOUT symbols.dat has an empty symbol table, and grave,
+// Ctrl-0/1, Down on a character without special symbols opened a list of 0 candidates - was repaired by `fix: a symbol
+// list without entries is not opened`; it is no longer a known class: a recurrence is reported as new)
 
 fn fail(out: &mut Out, ctl: &mut Ctl, prop: &'static str, what: &str, seed: u64, profile: &Profile, hist: &[String]) {
     fail_class(out, ctl, prop, "new", what, seed, profile, hist)
@@ -162,6 +161,9 @@ fn trace(out: &mut Out, ctl: &mut Ctl, seed: u64, n_calls: usize, st: &mut Stats
     }
     let mut tw = new_twin(&home);
     st.add("histories", 1);
+    if profile.symbols == 2 {
+        st.add("histories_in_a_context_with_an_empty_symbol_table", 1);
+    }
     st.add(&format!("histories_dictionaries_{}", ["tests_data", "builtin", "generated"][profile.dict as usize]), 1);
     // initial configuration: small pages / small limits in half of the histories
     let mut pending: Vec<Op> = vec![];
@@ -300,17 +302,24 @@ fn trace(out: &mut Out, ctl: &mut Ctl, seed: u64, n_calls: usize, st: &mut Stats
             if post.len as usize != post.buf.chars().count() {
                 st.add("observations_with_a_spelled_syllable_in_the_display", 1);
             }
-            let empty_open = |o: &Obs| o.selecting() && o.total_choice == 0;
-            let in_known_class = profile.symbols == 2 && (empty_open(&pre) || empty_open(&post));
+            // FX1 (repaired): the routes that used to open an empty list - the symbol table asked for (grave, Ctrl-0/1,
+            // Down / cand_open on a character) in a context WITHOUT symbols.dat - are still generated and counted
+            if profile.symbols == 2 && !pre.selecting() {
+                let asks = matches!(op, Op::Default(96) | Op::CtrlNum(48) | Op::CtrlNum(49) | Op::CandOpen) || matches!(op, Op::Named(_));
+                if asks {
+                    st.add("calls_that_may_ask_for_a_list_in_a_context_without_symbol_table", 1);
+                    if matches!(op, Op::Default(96) | Op::CtrlNum(48) | Op::CtrlNum(49)) {
+                        st.add("symbol_table_requests_in_a_context_without_symbol_table", 1);
+                        if !post.selecting() {
+                            st.add("symbol_table_requests_in_a_context_without_symbol_table_not_opened", 1);
+                        }
+                    }
+                }
+            }
             let mut stop = false;
             for (p, msg) in verdicts {
-                if p == "C07" && in_known_class {
-                    st.add("verdicts_in_known_class_empty_symbol_table_list", 1);
-                    fail_class(out, ctl, p, KNOWN_EMPTY_SYMBOL_LIST, &msg, seed, &profile, &hist);
-                } else {
-                    fail(out, ctl, p, &msg, seed, &profile, &hist);
-                    stop = true;
-                }
+                fail(out, ctl, p, &msg, seed, &profile, &hist);
+                stop = true;
             }
             if stop {
                 ok = false;
